@@ -939,3 +939,162 @@ func deepSites(fl *Flow, isTarget func(*ssa.CallCommon) bool, depth int) []DeepS
 	})
 	return out
 }
+
+// DeepInstr is an instruction of interest found in a root function or in a helper of the root's
+// package reached from it (transitively), with the must-facts that hold there expressed in the
+// root's terms and a key translator from the containing function's terms to the root's.
+type DeepInstr struct {
+	Instr  ssa.Instruction
+	In     *ssa.Function
+	Flow   *Flow // flow of the containing function
+	Facts  FactSet
+	ToRoot func(string) string
+	Path   []ssa.CallInstruction // the calls leading from the root to the containing function
+}
+
+// Key returns the key of v (a value of the containing function) in the root's terms.
+func (d DeepInstr) Key(v ssa.Value) string { return d.ToRoot(d.Flow.K.Key(v)) }
+
+func deepInstrs(fl *Flow, isTarget func(ssa.Instruction) bool, depth int) []DeepInstr {
+	var out []DeepInstr
+	id := func(s string) string { return s }
+	eachInstr(fl.Fn, func(in ssa.Instruction) {
+		if isTarget(in) {
+			out = append(out, DeepInstr{Instr: in, In: fl.Fn, Flow: fl, Facts: fl.At(in), ToRoot: id})
+			return
+		}
+		ci, ok := in.(ssa.CallInstruction)
+		if !ok || depth >= 2 {
+			return
+		}
+		if _, isGo := in.(*ssa.Go); isGo {
+			return
+		}
+		cc := ci.Common()
+		cal := cc.StaticCallee()
+		if cal == nil || cal == fl.Fn || cal.Blocks == nil || cal.Synthetic != "" || funcPkgPath(cal) != funcPkgPath(fl.Fn) {
+			return
+		}
+		if _, isMC := cc.Value.(*ssa.MakeClosure); isMC {
+			return
+		}
+		inner := deepInstrs(NewFlow(fl.P, cal), isTarget, depth+1)
+		if len(inner) == 0 {
+			return
+		}
+		args := make([]string, len(cc.Args))
+		for i, a := range cc.Args {
+			args[i] = fl.K.Key(a)
+		}
+		tag := "@~" + cal.Name() + ":b${1}i${2}"
+		subst := func(k string) string {
+			k = localIDRe.ReplaceAllString(k, tag)
+			return paramRe.ReplaceAllStringFunc(k, func(m string) string {
+				i := 0
+				for _, ch := range m[1:] {
+					i = i*10 + int(ch-'0')
+				}
+				if i < len(args) {
+					return args[i]
+				}
+				return m
+			})
+		}
+		here := fl.At(in)
+		for _, di := range inner {
+			m := here.clone()
+			for f := range di.Facts {
+				g := Fact{f.Op, subst(f.L), ""}
+				if f.R != "" {
+					g.R = subst(f.R)
+				}
+				if (g.Op == "==" || g.Op == "!=") && g.L > g.R {
+					g.L, g.R = g.R, g.L
+				}
+				m[g] = true
+			}
+			innerTo := di.ToRoot
+			out = append(out, DeepInstr{Instr: di.Instr, In: di.In, Flow: di.Flow, Facts: m,
+				ToRoot: func(k string) string { return subst(innerTo(k)) }, Path: append([]ssa.CallInstruction{ci}, di.Path...)})
+		}
+	})
+	return out
+}
+
+// ownerChain: fn's declared function followed by the functions on whose behalf it runs: for a
+// private helper (unexported, never used as a value, every use a synchronous call or defer from
+// its own package) whose callers all belong to one declared function, that function, and so on.
+// "Only commitInner emits commit events" stays true when the emission moves into a helper that
+// only commitInner calls.
+func (p *Prog) ownerChain(fn *ssa.Function) []*ssa.Function {
+	fn = declaredParent(fn)
+	chain := []*ssa.Function{fn}
+	for i := 0; i < 4; i++ {
+		if fn.Object() == nil || fn.Object().Exported() || fn.Synthetic != "" {
+			break
+		}
+		ci := callIndexOf(p)
+		if ci.asValue[fn] || len(ci.callers[fn]) == 0 {
+			break
+		}
+		var owner *ssa.Function
+		ok := true
+		for _, r := range ci.callers[fn] {
+			if r.Kind == "go" || funcPkgPath(r.In) != funcPkgPath(fn) {
+				ok = false
+				break
+			}
+			o := declaredParent(r.In)
+			if o == fn {
+				continue // recursion
+			}
+			if owner != nil && owner != o {
+				ok = false
+				break
+			}
+			owner = o
+		}
+		if !ok || owner == nil {
+			break
+		}
+		fn = owner
+		chain = append(chain, fn)
+	}
+	return chain
+}
+
+// ownedByAny reports whether fn, or a function on whose behalf it exclusively runs, is named in allowed.
+func (p *Prog) ownedByAny(fn *ssa.Function, allowed []string) bool {
+	for _, f := range p.ownerChain(fn) {
+		nm := shortName(f)
+		for _, a := range allowed {
+			if a == nm {
+				return true
+			}
+		}
+	}
+	return false
+}
+
+// branchDominates: instruction in is reached only through a CFG edge whose edge facts satisfy
+// pred (the edge's target dominates in's block and is entered only through that edge). Unlike a
+// must-fact, this records that the test was made and decided this way, even if the tested
+// expression is modified afterwards (`if !isDup(m, c) { m[k] = v; count++ }`).
+func branchDominates(fl *Flow, in ssa.Instruction, pred func(Fact) bool) bool {
+	for _, b := range fl.Fn.Blocks {
+		if _, ok := b.Instrs[len(b.Instrs)-1].(*ssa.If); !ok || len(b.Succs) != 2 {
+			continue
+		}
+		for _, s := range b.Succs {
+			if len(s.Preds) != 1 || !s.Dominates(in.Block()) {
+				continue
+			}
+			for _, f := range fl.edgeFacts(b, s) {
+				if pred(f) {
+					return true
+				}
+			}
+		}
+	}
+	return false
+}
